@@ -81,8 +81,27 @@ TraceInit ==
 
 -----------------------------------------------------------------------------
 (* clauses shared by both kinds *)
+\* the records were handed to fit / predict / transform in the memory layout the case names (strides of
+\* the training records as seen by the code; an axis of length 1 has no meaningful stride).  The
+\* specification itself only ever talks about the logical values In.pts / In.qs.
+LayoutOk(ev) ==
+  LET st == ev.strides
+      rows == TN >= 2
+      cols == TF >= 2
+      lay == In.form
+  IN /\ Len(st) = 2
+     /\ lay \in {"owned", "view", "revf", "revr", "revb", "forder", "row2", "col2"}
+     /\ (lay \in {"owned", "view"}) => ((rows => st[1] = TF) /\ (cols => st[2] = 1))
+     /\ (lay = "revf") => ((rows => st[1] = TF) /\ (cols => st[2] = -1))
+     /\ (lay = "revr") => ((rows => st[1] = -TF) /\ (cols => st[2] = 1))
+     /\ (lay = "revb") => ((rows => st[1] = -TF) /\ (cols => st[2] = -1))
+     /\ (lay = "forder" /\ rows /\ cols) => (st[1] = 1 /\ st[2] = TN)
+     /\ (lay = "row2") => ((rows => st[1] = 2 * TF) /\ (cols => st[2] = 1))
+     /\ (lay = "col2") => ((rows => st[1] = 2 * TF) /\ (cols => st[2] = 2))
+
 ShapeOk(ev) ==
   /\ ev.ok /\ ev.num /\ ev.fin
+  /\ LayoutOk(ev)
   /\ ev.nrows = TK /\ ev.ncols = TF
   /\ Len(ev.cen) = TK /\ \A j \in 1..TK : Len(ev.cen[j]) = TF
   /\ Len(ev.counts) = TK
@@ -257,11 +276,11 @@ NearCounts(ev, nt) ==
        /\ ev.counts[j].i <= Cardinality({i \in 1..TN : j \in nt[i].adm})
 \* inertia * n in 10^-5 against the interval of the cost
 NearInertia(ev, nt) ==
-  LET lo == KSum([i \in 1..TN |-> nt[i].mlo])
-      hi == KSum([i \in 1..TN |-> nt[i].mhi])
-      dv == IF Mt = "l2" THEN 10 ELSE 1
-  IN /\ lo \div dv - TN * SlT <= ev.inertia * TN
-     /\ ev.inertia * TN <= hi \div dv + 1 + TN * SlT
+  LET dv == IF Mt = "l2" THEN 10 ELSE 1                       \* every term is brought to 10^-5 before summing
+      lo == KSum([i \in 1..TN |-> nt[i].mlo \div dv])        \* (rounded down / up), so that n terms fit 32 bits
+      hi == KSum([i \in 1..TN |-> nt[i].mhi \div dv + 1])
+  IN /\ lo - TN * SlT <= ev.inertia * TN
+     /\ ev.inertia * TN <= hi + TN * SlT
 
 DescribesNoCounts(ev, np, nq) ==
   /\ NearLabels(ev.lab, np)
